@@ -340,3 +340,30 @@ def l9(ctx):
             okh = okh and bool(offs)
             ok = okw and okh
         yield Ob(key_of("C16-L9", b.path, "unified-writes"), ok, "%s: write_sanity(freelist, magic_version, [reserved..]) and header = H::new(data_offset, min_segment_size)" % name, b.loc())
+
+
+@rule("C16-L10", "C16", 2, "the header is written into the arena as a whole value (ptr::write of H::new(..)): a repr(C) struct with padding bytes copies uninitialised bytes with it, so "
+      "the unified images of a Vec-, anonymous-map- and file-backed arena differ in those bytes (and stack bytes end up in the file) - the fields must fill the struct")
+def l10(ctx):
+    SZ = {"u8": 1, "u16": 2, "u32": 4, "u64": 8, "usize": 8}
+    for fl in ("sync", "unsync"):
+        a = ctx.facts.adts.get("%s::sealed::Header" % fl)
+        lay = ctx.facts.layouts.get("%s::sealed::Header" % fl) if hasattr(ctx.facts, "layouts") else None
+        ok = a is not None and lay is not None
+        total = 0
+        det = []
+        if ok:
+            for f in a["variants"][0]["fields"]:
+                ty = f["ty"]
+                l = ctx.facts.layouts.get(ty)
+                m = re.search(r"Atomic<(u\d+|usize)>$", ty)
+                sz = l[0] if l else (SZ.get(m.group(1)) if m else SZ.get(ty))
+                if sz is None:
+                    ok = False
+                    det.append((f["name"], ty, "?"))
+                    continue
+                total += sz
+                det.append((f["name"], sz))
+            ok = ok and total == lay[0]
+        yield Ob(key_of("C16-L10", "%s::sealed::Header" % fl, "no-padding"), ok, "fields %s sum to %d bytes, size_of = %s" % (det, total, lay[0] if lay else "?"),
+                 "%s:%s" % (a["file"], a["line"]) if a else None)
